@@ -44,10 +44,10 @@ def build_base(ctx, entry, arch, witness=False, burst=4, desc=False):
         return gi
 
 
-def link_cfg(ctx, base, n0, e0, nj):
-    tag = os.path.basename(base)[:-5] + '_%d_%d_%d' % (n0, e0, nj)
+def link_cfg(ctx, base, n0, e0, nj, k0=-1):
+    tag = os.path.basename(base)[:-5] + '_%d_%d_%d_%d' % (n0, e0, nj, k0)
     c = os.path.join(ctx.scratch, tag + '.cfg.c')
-    open(c, 'w').write('const int cfg_n0=%d, cfg_e0=%d, cfg_nj=%d;\n' % (n0, e0, nj))
+    open(c, 'w').write('const int cfg_n0=%d, cfg_e0=%d, cfg_nj=%d, cfg_k0=%d;\n' % (n0, e0, nj, k0))
     out = os.path.join(ctx.scratch, tag + '.q.gb')
     rc, o, _, _ = run(['goto-cc', base, c, '-o', out], timeout=300)
     if rc != 0:
@@ -89,17 +89,21 @@ def run_entries(ctx, entries, archs, unwind=None, timeout=1500, witness_for=(3, 
     for a in archs:
         for e in entries:
             for sp in splits(e, slots, burst):
-                work.append((a, e, False, sp))
+                if desc:
+                    for k0 in range(slots):
+                        work.append((a, e, False, sp + (k0,)))
+                else:
+                    work.append((a, e, False, sp + (-1,)))
     for e in witness_for:
         if e in entries:
-            work.append((archs[0], e, True, splits(e, slots, burst)[len(splits(e, slots, burst)) // 2]))
+            work.append((archs[0], e, True, splits(e, slots, burst)[len(splits(e, slots, burst)) // 2] + (0 if desc else -1,)))
 
     def one(w):
-        a, e, wit, (n0, e0, nj) = w
+        a, e, wit, (n0, e0, nj, k0) = w
         base = build_base(ctx, e, a, wit, burst, desc)
-        q = link_cfg(ctx, base, n0, e0, nj)
+        q = link_cfg(ctx, base, n0, e0, nj, k0)
         nm = '%sring step%s %s [%s]%s' % ('WITNESS ' if wit else '', ' +descriptor snapshot' if desc else '', ENTRIES[e], a,
-                                        '' if n0 < 0 else ' next_job=slot %d%s' % (n0, '' if nj < 0 else ', n_jobs=%d' % nj))
+                                        ('' if n0 < 0 else ' next_job=slot %d%s' % (n0, '' if nj < 0 else ', n_jobs=%d' % nj)) + ('' if k0 < 0 else ' snapshot slot %d' % k0))
         res, fails, log = cbmc(ctx, q, nm, unwind=unwind, timeout=timeout, expect='violated' if wit else 'discharged', trace=not wit)
         return w, res, fails, log
 
